@@ -2,9 +2,131 @@
 C13 — Patterns denote the sequences their definitions say, compositionally.
 Property theorems only (helpers are in the other files of this directory).
 -/
-import Sc3Verif.C13.MachMap1
+import Sc3Verif.C13.Final
 import Sc3Verif.C13.Session
 namespace Sc3Verif.C13
+
+/-! ## MAIN: the stream of a pattern shows the sequence the pattern denotes
+
+`Obs s` is the set of all finite observations of the stream state `s` (what `n` small steps show,
+for every `n`), `Lim (fun k => denE k p)` the set of all finite approximations of the sequence the
+spec assigns to `p`.  Equality of the two sets says: every value (and every end / exception) the
+real generator produces is the one the denotation has at that position, and every value the
+denotation has is eventually produced — for every pattern of the AST, arbitrarily nested, with
+finite and infinite repeats (no bound anywhere; silent divergence is the empty continuation on
+both sides). -/
+
+/-- MAIN (embedding): `stm.embed(p)` yields exactly the sequence `denE · p`. -/
+theorem stream_eq_den (p : Pat) (h : p.WF) : Obs (initE p) = Lim (fun k => denE k p) :=
+  (good_of_wf p h).1
+
+/-- MAIN (stream): `stm.stream(p)` yields exactly the sequence `denS · p`. -/
+theorem stream_eq_den_S (p : Pat) (h : p.WF) : Obs (initS p) = Lim (fun k => denS k p) :=
+  (goodS_of_good (good_of_wf p h)).1
+
+/-- The approximations of the denotation form a chain: deeper unrolling only adds information. -/
+theorem den_chain (p : Pat) (h : p.WF) : Chain (fun k => denS k p) :=
+  (goodS_of_good (good_of_wf p h)).2
+
+/-- Soundness half, explicitly: whatever the stream shows within `m` steps is part of the denoted
+    sequence. -/
+theorem run_le_den (p : Pat) (h : p.WF) (m : Nat) : ∃ k, run m (initS p) ⊑ denS k p := by
+  have : Obs (initS p) (run m (initS p)) := ⟨m, PL.le_refl _⟩
+  rw [stream_eq_den_S p h] at this; exact this
+
+/-- Completeness half, explicitly: every approximation of the denoted sequence is eventually
+    shown by the stream. -/
+theorem den_le_run (p : Pat) (h : p.WF) (k : Nat) : ∃ m, denS k p ⊑ run m (initS p) := by
+  have : Lim (fun k => denS k p) (denS k p) := ⟨k, PL.le_refl _⟩
+  rw [← stream_eq_den_S p h] at this; exact this
+
+theorem PL.le_vals_prefix {x y : PL} (h : x ⊑ y) : x.vals <+: y.vals := by
+  unfold PL.le at h
+  cases hx : x.st <;> simp only [hx] at h
+  · exact h
+  · subst h; exact List.prefix_refl _
+  · subst h; exact List.prefix_refl _
+
+/-- The `take n` form: whenever `m` steps of the stream and depth `k` of the denotation both
+    determine the first `n` values, these are the same values. -/
+theorem stream_take_eq_den (p : Pat) (h : p.WF) (n m k : Nat)
+    (h1 : n ≤ (run m (initS p)).vals.length) (h2 : n ≤ (denS k p).vals.length) :
+    (run m (initS p)).vals.take n = (denS k p).vals.take n := by
+  obtain ⟨k', hk'⟩ := run_le_den p h m
+  have hc := den_chain p h
+  have ha : run m (initS p) ⊑ denS (max k k') p := PL.le_trans hk' (hc.le (Nat.le_max_right _ _))
+  have hb : denS k p ⊑ denS (max k k') p := hc.le (Nat.le_max_left _ _)
+  obtain ⟨t1, ht1⟩ := PL.le_vals_prefix ha
+  obtain ⟨t2, ht2⟩ := PL.le_vals_prefix hb
+  have e1 : (run m (initS p)).vals.take n = (denS (max k k') p).vals.take n := by
+    rw [← ht1, List.take_append_of_le_length h1]
+  have e2 : (denS k p).vals.take n = (denS (max k k') p).vals.take n := by
+    rw [← ht2, List.take_append_of_le_length h2]
+  rw [e1, e2]
+
+/-- Ends agree: if the stream is seen to stop (or raise) after some values, the denotation is
+    exactly that finite sequence with that end, and conversely. -/
+theorem stream_end_iff_den_end (p : Pat) (h : p.WF) (x : PL) (hx : x.st ≠ .more) :
+    (∃ m, run m (initS p) = x) ↔ (∃ k, denS k p = x) := by
+  constructor
+  · rintro ⟨m, rfl⟩
+    obtain ⟨k, hk⟩ := run_le_den p h m
+    exact ⟨k, (PL.eq_of_le_of_closed hk hx).symm⟩
+  · rintro ⟨k, rfl⟩
+    obtain ⟨m, hm⟩ := den_le_run p h k
+    exact ⟨m, (PL.eq_of_le_of_closed hm hx).symm⟩
+
+/-! ## `next()` as the driver runs it is an observation of the stream -/
+
+theorem next_yield_obs {f : Nat} {s s' : St} {v : Val} (h : next f s = some (.yield v s')) :
+    ∀ x, Obs s' x → Obs s (x.cons v) := by
+  induction f generalizing s with
+  | zero => simp [next] at h
+  | succ f ih =>
+    intro x hx
+    rw [next] at h
+    cases hs : step s with
+    | tau t =>
+      rw [hs] at h
+      obtain ⟨n, hn⟩ := ih h x hx
+      exact ⟨n + 1, by simp only; rw [run_tau hs]; exact hn⟩
+    | yield w t =>
+      rw [hs] at h; simp only [Option.some.injEq, Step.yield.injEq] at h
+      obtain ⟨rfl, rfl⟩ := h
+      obtain ⟨n, hn⟩ := hx
+      exact ⟨n + 1, by simp only; rw [run_yield hs]; exact PL.cons_le_cons _ hn⟩
+    | done => rw [hs] at h; simp at h
+    | err => rw [hs] at h; simp at h
+
+theorem next_done_obs {f : Nat} {s : St} (h : next f s = some .done) : Obs s ⟨[], .done⟩ := by
+  induction f generalizing s with
+  | zero => simp [next] at h
+  | succ f ih =>
+    rw [next] at h
+    cases hs : step s with
+    | tau t =>
+      rw [hs] at h
+      obtain ⟨n, hn⟩ := ih h
+      exact ⟨n + 1, by simp only; rw [run_tau hs]; exact hn⟩
+    | yield w t => rw [hs] at h; simp at h
+    | done => exact ⟨1, by simp only; rw [run_done hs]; exact PL.le_refl _⟩
+    | err => rw [hs] at h; simp at h
+
+theorem next_err_obs {f : Nat} {s : St} (h : next f s = some .err) : Obs s ⟨[], .err⟩ := by
+  induction f generalizing s with
+  | zero => simp [next] at h
+  | succ f ih =>
+    rw [next] at h
+    cases hs : step s with
+    | tau t =>
+      rw [hs] at h
+      obtain ⟨n, hn⟩ := ih h
+      exact ⟨n + 1, by simp only; rw [run_tau hs]; exact hn⟩
+    | yield w t => rw [hs] at h; simp at h
+    | done => rw [hs] at h; simp at h
+    | err => exact ⟨1, by simp only; rw [run_err hs]; exact PL.le_refl _⟩
+
+/-! ## Blueprints and independent streams -/
 
 /-- Streams never influence one another: in ANY interleaving of `next()` calls on any number of
     streams (here: arbitrary stream states `ss`, in particular `m` fresh streams of one pattern),
@@ -49,5 +171,22 @@ theorem stopped_stays_stopped (fuel k : Nat) : soloRun fuel k none = List.replic
   induction k with
   | zero => rfl
   | succ k ih => simp [soloRun, slotNext, ih, List.replicate_succ]
+
+/-! ## Non-vacuity: a concrete nested pattern with an endless repeat -/
+
+/-- `Pstutter(Pseq([1, Pn(2.5, 2), Pseries(0, 1, inf) + 10], inf, 1), Pseq([2, 0, 1], inf))` -/
+def examplePat : Pat :=
+  .stutter
+    (.seq [.const (.int 1), .pn (.const (.flt (5/2))) (.fin 2),
+           .len (.binop .add (.series (.int 0) (.const (.int 1)) .inf) (.const (.int 10))) 2] .inf 1)
+    (.seq [.const (.int 2), .const (.int 0), .const (.int 1)] .inf 0)
+
+example : examplePat.WF := by simp [examplePat, Pat.WF, WFL]
+
+
+example : denS 2 (.pn (.const (.int 1)) .inf) = ⟨[.int 1, .int 1], .more⟩ := by rfl
+
+example : run 5 (initS (.pn (.const (.int 1)) (.fin 2))) = ⟨[.int 1, .int 1], .done⟩ := by
+  simp [run, step, initS, initE, sOf, schedLoad, SchedD.item, Rep.allows, Item.start, PL.cons]
 
 end Sc3Verif.C13
